@@ -236,6 +236,8 @@ type WOpts struct {
 	Unknown  bool // sprinkle members no field declares
 	StrInts  bool // with String2Int64: spell some integers / doubles as strings
 	UseNames int  // 0: alias when declared else name; 1: always the field name (MapFieldUseFieldName / UseBoth); 2: mixed (UseBoth)
+	// Contradict: replace one value by a JSON value whose kind contradicts the descriptor (Doc.Contradiction says where)
+	Contradict bool
 }
 
 // Doc is the result of writing: the JSON text and the value it denotes (document order, nulls omitted).
@@ -243,9 +245,14 @@ type Doc struct {
 	Text   []byte
 	Denote *tm.Value
 	Stats  map[string]int
+	// Contradiction is non-empty when a wrong-kind value was placed ("<thrift kind> <- <json text>")
+	Contradiction string
+	Unknown       int // members no field declares
 }
 
 type writer struct {
+	placed  string
+	unknown int
 	w  *jmodel.W
 	t  *rapid.T
 	u  *tm.Universe
@@ -260,19 +267,57 @@ func Write(t *rapid.T, v *tm.Value, ty *tm.Type, u *tm.Universe, o WOpts, varian
 	jw.WS()
 	den := wr.value(v, ty, false, 0)
 	jw.WS()
-	return Doc{Text: jw.B, Denote: den, Stats: jw.Stats}
+	return Doc{Text: jw.B, Denote: den, Stats: jw.Stats, Contradiction: wr.placed, Unknown: wr.unknown}
 }
 
 func exactF64(i int64) bool { return i >= -(1<<53) && i <= 1<<53 }
 
+// wrong-kind JSON texts per Thrift kind
+func (wr *writer) wrongKind(ty *tm.Type) []string {
+	switch ty.K {
+	case tm.BOOL:
+		return []string{"1", "0", "\"true\"", "[]", "{}", "[true]"}
+	case tm.BYTE, tm.I16, tm.I32, tm.I64, tm.DOUBLE:
+		l := []string{"true", "false", "[]", "{}", "[1]", "{\"a\":1}"}
+		if !wr.o.String2Int64 {
+			l = append(l, "\"12\"", "\"\"", "\"x\"")
+		}
+		return l
+	case tm.STRING:
+		l := []string{"12", "-1.5", "true", "false", "[]", "{}", "[\"a\"]"}
+		if ty.Bin && !wr.o.NoBase64Binary {
+			l = append(l, "\"!!!!\"", "\"a\"", "\"ab=c\"")
+		}
+		return l
+	case tm.LIST, tm.SET:
+		return []string{"{}", "1", "\"x\"", "true", "{\"0\":1}"}
+	case tm.MAP, tm.STRUCT:
+		return []string{"[]", "1", "\"x\"", "false", "[{}]"}
+	}
+	return nil
+}
+
 func (wr *writer) value(v *tm.Value, ty *tm.Type, jsconv bool, depth int) *tm.Value {
 	w := wr.w
+	if wr.o.Contradict && wr.placed == "" && !jsconv && !(depth == 0 && ty.K == tm.STRING) && rapid.IntRange(0, 3).Draw(wr.t, "contradictHere") == 0 {
+		l := wr.wrongKind(ty)
+		txt := l[rapid.IntRange(0, len(l)-1).Draw(wr.t, "wrongKind")]
+		wr.placed = fmt.Sprintf("%v <- %s", ty.K, txt)
+		if ty.K == tm.STRING && ty.Bin {
+			wr.placed = "binary <- " + txt
+		}
+		w.Raw(txt)
+		return v
+	}
 	switch ty.K {
 	case tm.BOOL:
 		w.Bool(v.B)
 		return v
 	case tm.BYTE, tm.I16, tm.I32, tm.I64:
 		asStr := jsconv && rapid.Bool().Draw(wr.t, "jsconvStr")
+		if jsconv {
+			wr.st["jsconv-"+ty.K.String()]++
+		}
 		if !jsconv && wr.o.String2Int64 && wr.o.StrInts && rapid.IntRange(0, 2).Draw(wr.t, "intAsStr") == 0 {
 			asStr = true
 		}
@@ -364,6 +409,7 @@ func (wr *writer) value(v *tm.Value, ty *tm.Type, jsconv bool, depth int) *tm.Va
 		w.Raw("{")
 		first := true
 		nulled := map[int16]bool{}
+		usedUnknown := map[string]bool{}
 		sep := func() {
 			if !first {
 				w.Raw(",")
@@ -375,10 +421,25 @@ func (wr *writer) value(v *tm.Value, ty *tm.Type, jsconv bool, depth int) *tm.Va
 			if wr.o.Unknown && rapid.IntRange(0, 5).Draw(wr.t, "unknownMember") == 0 {
 				sep()
 				names := []string{"zz_unknown", "", "f", "f_", "unknown \"quoted\" \\ key", "k_", "é中"}
-				name := names[rapid.IntRange(0, len(names)-1).Draw(wr.t, "unknownName")]
-				if sd.FieldByName(name) != nil {
-					name = "zz_unknown"
+				for i := range sd.Fields {
+					// the plain name of an aliased field is not a key when keys are mapped by alias
+					if fd := &sd.Fields[i]; wr.o.UseNames == 0 && fd.Alias != "" {
+						names = append(names, fd.Name)
+					} else if wr.o.UseNames == 1 && fd.Alias != "" {
+						names = append(names, fd.Alias)
+					}
 				}
+				name := names[rapid.IntRange(0, len(names)-1).Draw(wr.t, "unknownName")]
+				for i := range sd.Fields {
+					if Key(&sd.Fields[i]) == name || (wr.o.UseNames != 0 && sd.Fields[i].Name == name) {
+						name = "zz_unknown"
+					}
+				}
+				if usedUnknown[name] {
+					name = fmt.Sprintf("zz_unknown_%d", len(usedUnknown))
+				}
+				usedUnknown[name] = true
+				wr.unknown++
 				w.Str(name)
 				w.WS()
 				w.Raw(":")
@@ -407,6 +468,9 @@ func (wr *writer) value(v *tm.Value, ty *tm.Type, jsconv bool, depth int) *tm.Va
 					w.Null()
 					w.WS()
 					wr.st["null-member"]++
+					if wr.o.ValueMapping && JSConv(fd) {
+						wr.st["jsconv-null"]++
+					}
 				}
 			}
 		}
